@@ -582,7 +582,10 @@ func clip(b []byte) string {
 
 func (p Prop) oneSchedule(r *core.Run, doc *document, base decoded, sch schedule, f fault, inside []uint8, cont []bool, interesting []int, limit int) *core.Violation {
 	rd, cs := makeReader(r.T, doc.data, sch, f, interesting, r.Tracing)
+	// hang detection is per decode: generous and proportional to the input, never per run
+	r.Sim.Budget(2_000_000 + 2000*uint64(len(doc.data)))
 	got := decodeAll(rd, limit)
+	r.Sim.Budget(50_000_000)
 	r.Count("executions")
 	if got.afterTerminal {
 		return core.Violationf("decode-after-terminal", "decode-after-terminal", "%v (reader schedule style=%d fault=%s)", got.err, sch.style, f)
